@@ -28,6 +28,17 @@ BIG_CELLS = 200          # above this many cells the canonical form is compared 
 # ---------------------------------------------------------------------------------------------
 # generation
 # ---------------------------------------------------------------------------------------------
+COLLAPSE_REDS = ("max", "min", "prod", "len")
+
+
+def np_reducer(np, red):
+    return {"max": np.max, "min": np.min, "prod": np.prod, "len": len, "first": (lambda x: x[0])}[red]
+
+
+def py_reduce(red, g):
+    return {"max": max, "min": min, "prod": math.prod, "len": len, "first": (lambda x: x[0])}[red](g)
+
+
 def cells_of(shape):
     return [list(s) for s in tgen.all_subs(shape)]
 
@@ -297,6 +308,9 @@ def gen_round(rng, tier, mk):
         for dims in subsets + [None]:
             for _ in range(rep):
                 add("collapse", dict(sp_args(rng, shape), dims=dims))
+        # wave 5: a reducer other than sum (np.max / np.min / np.prod / len): it sees the STORED values only (Model/C06W5.v cont_collapse_f)
+        for dims in rng.sample(subsets, min(2, len(subsets))) + [None]:
+            add("collapse", dict(sp_args(rng, shape), dims=dims, red=rng.choice(COLLAPSE_REDS)))
     # ---- scale: dense / sparse / ndarray factor (nonzero factors: a zero factor is a C02 matter — see SCALE_ZERO below)
     for shape in SHAPES:
         N = len(shape)
@@ -329,6 +343,36 @@ def gen_round(rng, tier, mk):
                     qs = [list(q) for q in dict.fromkeys(map(tuple, qs))]          # distinct targets: one value per target
                     steps.append({"t": "subs", "subs": qs, "c": [rng.choice((0, 0, 6, -5)) for _ in qs]})
             add("setitem", dict(a, steps=steps))
+    # ---- wave 5: ONE subscript assignment that zeroes stored entries (they are deleted), overwrites OTHER stored entries with nonzero
+    #      values and (optionally) creates new entries / assigns zero to an absent cell; targets listed in a random order; run for every
+    #      stored order of the receiver (all n! for n <= 4): positions inside the coordinate list that were looked up before the
+    #      deletion are stale afterwards, whether that shows depends on the stored order
+    for shape in [s for s in SHAPES if math.prod(s) >= 3]:
+        for _ in range(2 * rep):
+            n = rng.randint(2, min(math.prod(shape), rng.choice((3, 4, 4, 6))))
+            a = sp_args(rng, shape, n)
+            idx = list(range(n))
+            rng.shuffle(idx)
+            kd = rng.randint(1, n - 1)
+            ku = rng.randint(1, n - kd)
+            tg = [(a["subs"][k], 0) for k in idx[:kd]] + [(a["subs"][k], rng.choice((6, -5, 9))) for k in idx[kd:kd + ku]]
+            absent = [c for c in cells_of(shape) if c not in a["subs"]]
+            rng.shuffle(absent)
+            tg += [(c, rng.choice((0, 7, -8))) for c in absent[:rng.randint(0, 2)]]
+            rng.shuffle(tg)
+            steps = [{"t": "subs", "subs": [list(q) for q, _ in tg], "c": [v for _, v in tg]}]
+            if rng.random() < 0.3:        # and a second call on the result: delete one of the overwritten entries, restore a deleted one
+                steps.append({"t": "subs", "subs": [list(a["subs"][idx[kd]]), list(a["subs"][idx[0]])], "c": [0, 4]})
+            add("setitem", dict(a, steps=steps, mixed=True))
+    # ---- wave 5 (/repo d89c921): scale with a factor whose shape does not fit the scaled modes — refused for a receiver with and
+    #      WITHOUT stored entries alike (every stored order / memory layout behaves the same); and admissible factors on an empty receiver
+    for shape in ([3], [2, 3], [2, 3, 2]):
+        for n in (0, None):
+            m = rng.randrange(len(shape))
+            for fk in ("tensor", "sptensor"):
+                bad = [shape[m] + 1]
+                add("scale", dict(sp_args(rng, shape, n), dims=[m], fshape=bad, fdata=[rng.choice((-2, 2, 3)) for _ in range(bad[0])], fkind=fk))
+                add("scale", dict(sp_args(rng, shape, 0), dims=[m], fshape=[shape[m]], fdata=[rng.choice((-2, 2, 3)) for _ in range(shape[m])], fkind=fk))
     # ---- __setitem__ of a region whose key holds index LISTS (distinct or REPEATING an index: finding C06-DUP1), on empty and
     #      non-empty receivers, with a scalar / zero / sparse right-hand side, optionally growing the shape
     for shape in [s for s in SHAPES if math.prod(s) > 1]:
@@ -348,9 +392,9 @@ def gen_round(rng, tier, mk):
     for shape in SHAPES:
         for _ in range(2 * rep):
             a = sp_args(rng, shape)
-            w = sp_args(rng, shape)
-            if w["subs"]:
-                add("mask", dict(a, rk="sparse", bsubs=w["subs"], bvals=[1] * len(w["subs"])))
+            w = sp_args(rng, shape, 0 if rng.random() < 0.15 else None)
+            # a sparse mask WITHOUT stored entries is an ordinary request since /repo 5f8b038: no value is returned
+            add("mask", dict(a, rk="sparse", bsubs=w["subs"], bvals=[1] * len(w["subs"])))
             p = rng.randint(1, 4)
             qs = [rng.choice(a["subs"]) if a["subs"] and rng.random() < 0.6 else [rng.randrange(d) for d in shape] for _ in range(p)]
             add("extract", dict(a, q=[list(q) for q in qs]))
@@ -762,6 +806,8 @@ def run_on(np, ttb, S, op, a):
             if op == "contract":
                 return obs_any(np, ttb, S.contract(a["i1"], a["i2"]))
             if op == "collapse":
+                if a.get("red"):
+                    return obs_any(np, ttb, S.collapse(None if a["dims"] is None else np.array(a["dims"], dtype=int), np_reducer(np, a["red"])))
                 return obs_any(np, ttb, S.collapse() if a["dims"] is None else S.collapse(np.array(a["dims"], dtype=int)))
             if op == "scale":
                 if a["fkind"] == "ndarray":
@@ -1025,6 +1071,13 @@ def gsp_sorted(o):
     return tgen.gsparse(o["shape"], [e[0] for e in es], [e[1] for e in es])
 
 
+def gsp_lex(a, ks="subs", kv="vals"):
+    """an OPERAND of a huge case as a literal with its entries listed in ascending (lexicographic) subscript order — what the
+    linear-time walks of Model/C06W5.v expect (Coq re-checks the strict ascent: sorted_wfb)"""
+    es = sorted(zip([list(s) for s in a[ks]], a[kv]), key=lambda e: e[0])
+    return tgen.gsparse(a["shape"], [e[0] for e in es], [e[1] for e in es])
+
+
 def gsame_sparse(obs):
     fn = "all_same_sparse_e" if math.prod(obs[0]["shape"]) > BIG_CELLS else "all_same_sparse"
     return f"{fn} {glist([gsp_obs(o) for o in obs])}"
@@ -1082,7 +1135,10 @@ def check_gen(a, o):
         if not o["input_kept"] or not raw_ok(o["after"]):
             return "false"
         shp = diag_shape(a)
-        return f"sp_den_is {gnlist(shp)} (diag_den {gzlist(a['els'])}) {gsp_obs(o)} && sp_raw_eqb {gsp_obs(o)} {gsp_obs(o['after'])}"
+        req = "None" if a["req"] is None else f"(Some {gnlist(a['req'])})"
+        # wave 5: pyttb holds the entries the transliteration returns (Model/C06W5.v impl_sptendiag; C06_sptendiag: well-formed, super-diagonal)
+        return (f"sp_den_is {gnlist(shp)} (diag_den {gzlist(a['els'])}) {gsp_obs(o)} && sp_raw_eqb {gsp_obs(o)} {gsp_obs(o['after'])}"
+                f" && sp_perm_eqb (impl_sptendiag 0%Z Z.add zisz {gzlist(a['els'])} {req}) {gsp_obs(o)}")
     if g == "sptenrand" and not o["unit"]:
         return "false"
     if len(o["subs"]) > req_count(a):
@@ -1124,11 +1180,29 @@ def kernel_tie(c, o):
     impl_scale_sp, impl_mask_sp) to pyttb inside this check: the first run's raw result is what the model computes from the
     literal operand"""
     a = c.args
-    if c.op not in ("ttv", "ttm", "collapse", "contract", "scale", "mask", "permute", "reshape", "squeeze", "extract"):
+    if c.op not in ("ttv", "ttm", "collapse", "contract", "scale", "mask", "permute", "reshape", "squeeze", "extract", "setitem", "getitem"):
         return ""
     shp = a["shape"]
     N = len(shp)
     A = tgen.gsparse(shp, a["subs"], a["vals"])
+    if c.op == "getitem":
+        # wave 5: S[array of subscripts] is extract: one value per requested row, in the order of the request (C06_ops_extract)
+        if "q" not in a:
+            return ""
+        if o["kind"] == "scalar" and len(a["q"]) == 1:         # one requested row: the value itself
+            return f" && scalar_is {gqs([o])} (hd 0%Z (impl_extract 0%Z {A} {gnmat(a['q'])}))"
+        if o["kind"] != "array" or len(o["data"]) != len(a["q"]):
+            return " && false"
+        return f" && vec_eqb (impl_extract 0%Z {A} {gnmat(a['q'])}) {gzlist(o['data'])}"
+    if c.op == "setitem":
+        # wave 5: assignments at listed subscripts (pairwise distinct, in bounds): the result denotes the receiver's array with the
+        # listed cells replaced (a zero deletes), step after step
+        if not all(st["t"] == "subs" for st in a["steps"]) or o["kind"] != "sparse":
+            return ""
+        f = f"(zden_sp {A})"
+        for st in a["steps"]:
+            f = f"(fun i_ => last_match i_ {gtargets(list(zip(st['subs'], st['c'])))} ({f} i_))"
+        return f" && sp_den_is {gnlist(shp)} {f} {gsp_obs(o)}"
     # permute / reshape / squeeze: the C07 models the theorems C06_ops_permute / _reshape / _squeeze are stated over
     # (shape included: a result with the right entries and the wrong shape is not the model's result)
     if c.op == "permute":
@@ -1171,6 +1245,9 @@ def kernel_tie(c, o):
     if c.op == "collapse":
         dims = list(range(N)) if a["dims"] is None else sorted(a["dims"])
         rs = [shp[m] for m in range(N) if m not in dims]
+        if a.get("red"):
+            # wave 5: container model with the reducer (C06_cont_collapse_reducer_indep / _wf)
+            return gcont_is(f"(cont_collapse_f 0%Z zisz red_{a['red']} {A} {gnlist(dims)})", o)
         return (" && " + gfun_is(rs, f"(impl_collapse_sp 0%Z Z.add {A} {gnlist(dims)})", o)
                 + gcont_is(f"(cont_collapse 0%Z Z.add zisz {A} {gnlist(dims)})", o))
     if c.op == "contract":
@@ -1225,14 +1302,20 @@ def check_ext(c, runs):
     if a.get("huge"):
         # linear-time checkers (Model/C06W4.v); the quadratic model ties are kept only where they stay affordable (extract)
         if kind == "scalar":
-            return f"all_same_scalar {gqs(runs)}"
+            e = f"all_same_scalar {gqs(runs)}"
+            if c.op == "innerprod" and a.get("rk") == "sparse":
+                # wave 5: model tie — the number is what the linear-time walk over the two operands (listed ascending) computes;
+                # C06_huge_inner_sound: = the sum over all subscripts = impl_innerprod_sp_sp
+                e += f" && huge_inner_ok {gsp_lex(a)} {gsp_lex(a, 'bsubs', 'bvals')} {gqs(runs[:1])}"
+            return e
         if kind == "sparse":
             return f"all_same_sorted {glist([gsp_sorted(r) for r in runs])}"
         if kind in ("dense", "array"):
-            return "all_same_dense " + glist([tgen.gdense(r["shape"], r["data"]) for r in runs]) + (kernel_tie(c, runs[0]) if c.op == "extract" else "")
+            return "all_same_dense " + glist([tgen.gdense(r["shape"], r["data"]) for r in runs]) + (kernel_tie(c, runs[0]) if c.op in ("extract", "getitem") else "")
         if kind == "assoc":
             srt = [sorted(zip([list(k) for k in r["keys"]], r["vals"]), key=lambda e: e[0]) for r in runs]
-            return "all_same_assoc_sorted " + glist(["(combine " + gnmat([e[0] for e in x]) + " " + gzlist([e[1] for e in x]) + ")" for x in srt])
+            return ("all_same_assoc_sorted " + glist(["(combine " + gnmat([e[0] for e in x]) + " " + gzlist([e[1] for e in x]) + ")" for x in srt])
+                    + (kernel_tie(c, runs[0]) if c.op == "mask" else ""))       # wave 5: impl_mask_sp tie for the huge mask (thorough tier)
         return "false"
     if kind == "scalar":
         e = f"all_same_scalar {gqs(runs)}"
@@ -1450,6 +1533,15 @@ def brute_expected(op, a):
         J = len(U[0]) if tr else len(U)
         rs = [J if m == n else d for m, d in enumerate(shp)]
         return build(rs, lambda i: sum((U[k][i[n]] if tr else U[i[n]][k]) * A.get(i[:n] + (k,) + i[n + 1:], 0) for k in range(shp[n])))
+    if op == "collapse" and a.get("red"):
+        dims = list(range(N)) if a["dims"] is None else a["dims"]
+        rest = [m for m in range(N) if m not in dims]
+        groups = {}
+        for j, v in zip(a["subs"], a["vals"]):
+            groups.setdefault(tuple(j[m] for m in rest), []).append(v)
+        if not rest and not groups:
+            return None                         # reducing no value: the reducer's own business (np.max raises)
+        return build([shp[m] for m in rest], lambda i: py_reduce(a["red"], groups[i]) if i in groups else 0)
     if op in ("collapse", "contract"):
         dims = (list(range(N)) if a["dims"] is None else a["dims"]) if op == "collapse" else [a["i1"], a["i2"]]
         rest = [m for m in range(N) if m not in dims]
@@ -1458,6 +1550,8 @@ def brute_expected(op, a):
     if op == "scale":
         F = dict(zip(map(tuple, tgen.all_subs(a["fshape"])), a["fdata"]))
         sd = sorted(a["dims"])
+        if list(a["fshape"]) != [shp[m] for m in sd]:
+            return None                         # ill-sized factor: not an admissible request, nothing is defined
         return build(shp, lambda i: A.get(i, 0) * F[tuple(i[m] for m in sd)])
     if op == "permute":
         p = a["p"]
